@@ -1,4 +1,5 @@
 """Context::with_* (src/processor.rs): derived contexts keep input and parents, change only their own component."""
+import re
 import z3
 from .lib import *
 from .report import Candidate, Broken
@@ -75,7 +76,16 @@ def contexts(ctx):
     run.assume('Vec / HashMap / Rc are modelled as sequences / association lists / shared objects; names are compared by identity of their symbolic tag')
     CT = ctx.structs['Context']
     PR = r'^processor::<impl at [^>]*>::'
-    ex = ctx.exec(summaries=SUMM, inline=[(r'Context::input$', PR + 'input$')], max_visits=14)
+    TOP = ('with_inupt', 'with_result', 'with_variable', 'with_variables', 'with_definition', 'with_definitions', 'parent_input', 'new_empty', 'new_with_input', 'new_with_no_context', 'build', 'key', 'to_list', 'compile_regex')
+    # every method of the `impl Context` block is executed, not summarised (helper extraction is followed)
+    impl = re.match(r'(processor::<impl at [^>]*>)::', ctx.find(PR + 'with_inupt$').name).group(1)
+    inl = []
+    for n in ctx.fns:
+        if n.startswith(impl + '::') and n.count('::') == impl.count('::') + 1:
+            h = n.rsplit('::', 1)[1]
+            if h in ('new_empty', 'new_with_input', 'new_with_no_context', 'build', 'key', 'to_list', 'compile_regex', 'get_variable_value', 'get_definition', 'get_selection'): continue
+            inl.append((r'Context::%s$' % h, '^' + re.escape(n) + '$'))
+    ex = ctx.exec(summaries=SUMM, inline=inl, max_visits=14)
     fam = run.family('context.derive', 'with_result/variable(s)/definition(s) keep the input and every parent input and change only their own component; with_inupt pushes the old input in front of the parents, clears the results, keeps the bindings')
     fpar = run.family('context.parent_input', 'parent_input(k) is the input for k=0, the k-th enclosing input for 1<=k<=#parents, and the input again beyond')
 
